@@ -58,6 +58,8 @@ namespace c08
 
   // ------------------------------------------------------------------------------------------ value alphabet
   const double DIAG[4] = {1.0, 2.0, 4.0, -2.0};
+  /// diagonal alphabet; diagonal variant 2 = all diagonal entries negative
+  inline double diag_val(int idx, int dvar) { const double d = DIAG[(idx + (dvar < 2 ? dvar : 0)) % 4]; return dvar == 2 ? -std::fabs(d) : d; }
 
   /// value of scalar entry (I,J) of matrix version v; off-diagonal blocks are position coded, diagonal blocks are
   /// products of a unit lower and an upper triangle with power-of-two diagonal (inverse exactly representable)
@@ -69,7 +71,7 @@ namespace c08
       const LD mag = LD(1 + (I + 3 * J + 5 * v) % 8) / 8.0L;
       return ((I + J + v) & 1) ? -mag : mag;
     }
-    if(bs == 1) return DIAG[(bi + dvar + v) % 4];
+    if(bs == 1) return diag_val(bi + v, dvar);
     // (L*U)_rc with a unit lower triangle L and an upper triangle U whose diagonal entries are +-powers of two
     auto L = [&](int rr, int k) -> LD
     {
@@ -80,7 +82,7 @@ namespace c08
     auto U = [&](int k, int cc) -> LD
     {
       if(k > cc) return 0.0L;
-      if(k == cc) return LD(DIAG[(bi * bs + k + dvar + v) % 4]);
+      if(k == cc) return LD(diag_val(bi * bs + k + v, dvar));
       return (((k + cc + v) & 1) ? -1.0L : 1.0L) * LD(1 + (k + cc + bi) % 3) / 4.0L;
     };
     LD s = 0;
@@ -156,7 +158,7 @@ namespace c08
     if(!blocked)
     {
       for(int m : {1, 2, 3}) for(double om : {1.0, 0.5}) v.push_back({K_POLY, m, om});
-      for(double om : OM) v.push_back({K_SCALE, 0, om});
+      for(double om : {1.0, 0.5, 1.5, 0.0, -2.0}) v.push_back({K_SCALE, 0, om});   // including exactly 0, exactly 1 and a negative factor
       v.push_back({K_DIAG, 0, 0.0});
       v.push_back({K_MATRIX, 0, 0.0});
     }
@@ -202,17 +204,21 @@ namespace c08
       }
     }
     /// textbook operator of data version v applied to d, followed by the correction filter
-    LVec apply(int v, const LVec& d) const
+    bool has_omega() const { return cfg.omega > 0.0 && (cfg.kind == K_JACOBI || cfg.kind == K_SOR || cfg.kind == K_SSOR || cfg.kind == K_POLY || cfg.kind == K_SCALE); } // set_omega asserts omega > 0
+    /// the second damping parameter used by the set_omega operation of the life-cycle histories (exactly 1 unless that is the first one)
+    double alt_omega() const { return cfg.omega == 1.0 ? 0.5 : 1.0; }
+    LVec apply(int v, const LVec& d) const { return apply(v, d, cfg.omega); }
+    LVec apply(int v, const LVec& d, double omega) const
     {
       LVec y;
       switch(cfg.kind)
       {
-      case K_JACOBI: y = ref_jacobi(A[v], d, cfg.omega); break;
-      case K_SOR: ref_sor(A[v], d, cfg.omega, y); break;
-      case K_SSOR: ref_ssor(A[v], d, cfg.omega, y); break;
+      case K_JACOBI: y = ref_jacobi(A[v], d, omega); break;
+      case K_SOR: ref_sor(A[v], d, omega, y); break;
+      case K_SSOR: ref_ssor(A[v], d, omega, y); break;
       case K_ILU: y = ilu[v].apply(d); break;
-      case K_POLY: y = ref_poly(A[v], d, cfg.ip, cfg.omega, fixed); break;
-      case K_SCALE: y = d; for(auto& x : y) x *= cfg.omega; break;
+      case K_POLY: y = ref_poly(A[v], d, cfg.ip, omega, fixed); break;
+      case K_SCALE: y = d; for(auto& x : y) x *= omega; break;
       case K_DIAG: y = d; for(int i = 0; i < N; ++i) y[i] *= diagvec_entry(i, v / 2); break;
       case K_MATRIX: y = matvec(A[v], d); break;
       }
@@ -242,7 +248,7 @@ namespace c08
     static typename std::enable_if<!std::is_same<F, typename S::FNone>::value, F>::type make_filter(const Oracle& o)
     {
       F f{Index(o.n)};
-      for(int b = 0; b < o.n; ++b) if(o.fixed[b * o.bs]) S::fadd(f, Index(b));
+      for(int b = o.n - 1; b >= 0; --b) if(o.fixed[b * o.bs]) S::fadd(f, Index(b)); // descending: the filter has to sort its entries itself
       return f;
     }
 
@@ -275,6 +281,20 @@ namespace c08
       case K_ILU: prec = Solver::new_ilu_precond(PreferredBackend::generic, mat, filter, p.ip); break;
       default: break;
       }
+    }
+    /// re-invocation of the parameter setter on the existing object
+    void set_omega(double w) { set_omega_impl(w, std::integral_constant<bool, bs == 1>()); }
+    void set_omega_impl(double w, std::true_type)
+    {
+      if(orc.cfg.kind == K_POLY) static_cast<Solver::PolynomialPrecond<Mat, Filter>*>(prec.get())->set_omega(w);
+      else if(orc.cfg.kind == K_SCALE) static_cast<Solver::ScalePrecond<Vec, Filter>*>(prec.get())->set_omega(w);
+      else set_omega_impl(w, std::false_type());
+    }
+    void set_omega_impl(double w, std::false_type)
+    {
+      if(orc.cfg.kind == K_JACOBI) static_cast<Solver::JacobiPrecond<Mat, Filter>*>(prec.get())->set_omega(w);
+      else if(orc.cfg.kind == K_SOR) static_cast<Solver::SORPrecond<Mat, Filter>*>(prec.get())->set_omega(w);
+      else if(orc.cfg.kind == K_SSOR) static_cast<Solver::SSORPrecond<Mat, Filter>*>(prec.get())->set_omega(w);
     }
     /// in-place update of the values the preconditioner is built on
     void update(int v) { mver = v; set_values<bs>(mat, orc.A[v]); set_diagvec(v / 2); }
@@ -366,8 +386,8 @@ namespace c08
   }
 
   // life-cycle operations
-  enum LOp { L_INIT_SYM = 0, L_INIT_NUM, L_APPLY, L_UPDATE_DIAG, L_UPDATE_ALL, L_DONE_NUM, L_DONE_SYM, L_COUNT };
-  const char* const LNAME[] = {"init_symbolic", "init_numeric", "apply", "update_diagonal_values", "update_all_values", "done_numeric", "done_symbolic"};
+  enum LOp { L_INIT_SYM = 0, L_INIT_NUM, L_APPLY, L_UPDATE_DIAG, L_UPDATE_ALL, L_DONE_NUM, L_DONE_SYM, L_SET_OMEGA, L_COUNT };
+  const char* const LNAME[] = {"init_symbolic", "init_numeric", "apply", "update_diagonal_values", "update_all_values", "done_numeric", "done_symbolic", "set_omega(toggle)"};
 
   inline std::string hist_str(const std::vector<uint8_t>& h) { std::string s; for(auto o : h) { if(!s.empty()) s += ' '; s += LNAME[o]; } return s; }
 
@@ -409,6 +429,17 @@ namespace c08
         chk(c, std::memcmp(out.data(), out2.data(), sizeof(double) * size_t(N)) == 0, "precond.output-prefill-dependence " + kname,
           [&]{ return where + " d=" + vec_str(inputs[k]) + ": result depends on the previous content of vec_cor"; });
         outs.push_back(out);
+        c.count("applies_checked");
+      }
+      // exact scaling by powers of two far away from 1 (2^-400, 2^+400): P(s d) == s P(d) bitwise (no under/overflow at these sizes)
+      for(int e : {-400, 400})
+      {
+        const LVec& d0 = inputs.back();
+        LVec z(N); for(int i = 0; i < N; ++i) z[i] = std::ldexp(d0[i], e);
+        Status st; bool unch;
+        std::vector<double> out = box.apply(z, NaN, st, unch);
+        bool same = true; for(int i = 0; i < N; ++i) if(out[i] != std::ldexp(outs.back()[i], e)) same = false;
+        chk(c, same && unch, "precond.power-of-two-scaling " + kname + (bs > 1 ? " blocked" : ""), [&]{ return where + ": P(2^" + std::to_string(e) + " d) != 2^" + std::to_string(e) + " P(d)"; });
         c.count("applies_checked");
       }
       // linearity P(2x - y/2) = 2 Px - Py/2 on two of the inputs (dyadic coefficients)
@@ -505,7 +536,8 @@ namespace c08
     // ---------------------------------------------------------------- life-cycle histories (E3)
     if(!lifecycle) return;
     const LVec& probe = inputs.back();
-    LVec refs[Oracle::NV]; for(int v = 0; v < Oracle::NV; ++v) refs[v] = orc.apply(v, probe);
+    LVec refs[Oracle::NV][2];
+    for(int v = 0; v < Oracle::NV; ++v) { refs[v][0] = orc.apply(v, probe); refs[v][1] = orc.has_omega() ? orc.apply(v, probe, orc.alt_omega()) : refs[v][0]; }
 
     struct Key { uint64_t a, b; bool operator==(const Key& o) const { return a == o.a && b == o.b; } };
     struct KeyHash { size_t operator()(const Key& k) const { return size_t(k.a ^ (k.b * 0x9e3779b97f4a7c15ull)); } };
@@ -513,8 +545,10 @@ namespace c08
     // app_sym / app_num: was there an apply since the last init_symbolic / init_numeric (capped at 1)? These model-level bits are part of
     // the state key: for a correct implementation apply leaves no trace in the object, so without them every history with an apply BEFORE
     // a value update would be pruned as 'already visited' and a cache filled by the first apply could hide behind the canonical key.
-    struct Model { int phase = 0, mver = 0, nver = -1, app_sym = 0, app_num = 0; };
-    auto legal = [](const Model& m, int op)
+    // om: index of the damping parameter currently set (0: constructor value, 1: alternative), nom: the one at the last init_numeric
+    struct Model { int phase = 0, mver = 0, nver = -1, app_sym = 0, app_num = 0, om = 0, nom = -1; };
+    const bool with_omega = orc.has_omega();
+    auto legal = [with_omega](const Model& m, int op)
     {
       switch(op)
       {
@@ -524,6 +558,7 @@ namespace c08
       case L_UPDATE_DIAG: case L_UPDATE_ALL: return true;
       case L_DONE_NUM: return m.phase == 2;
       case L_DONE_SYM: return m.phase == 1;
+      case L_SET_OMEGA: return with_omega;
       }
       return false;
     };
@@ -540,22 +575,23 @@ namespace c08
         switch(op)
         {
         case L_INIT_SYM: box.prec->init_symbolic(); m.phase = 1; m.app_sym = 0; m.app_num = 0; break;
-        case L_INIT_NUM: box.prec->init_numeric(); m.phase = 2; m.nver = m.mver; m.app_num = 0; break;
+        case L_INIT_NUM: box.prec->init_numeric(); m.phase = 2; m.nver = m.mver; m.nom = m.om; m.app_num = 0; break;
         case L_UPDATE_DIAG: m.mver = m.mver ^ 2; box.update(m.mver); break;          // diagonal entries/blocks only
         case L_UPDATE_ALL: m.mver = m.mver ^ 3; box.update(m.mver); break;           // diagonal and off-diagonal values
-        case L_DONE_NUM: box.prec->done_numeric(); m.phase = 1; m.nver = -1; break;
+        case L_DONE_NUM: box.prec->done_numeric(); m.phase = 1; m.nver = -1; m.nom = -1; break;
+        case L_SET_OMEGA: m.om ^= 1; box.set_omega(m.om ? orc.alt_omega() : orc.cfg.omega); break;
         case L_DONE_SYM: box.prec->done_symbolic(); m.phase = 0; break;
         case L_APPLY:
           {
             Status st; bool unch;
             std::vector<double> out = box.apply(probe, NaN, st, unch);
             m.app_sym = 1; m.app_num = 1;
-            if(m.nver == m.mver)
+            if(m.nver == m.mver && m.nom == m.om)   // values and parameter as of the last init_numeric: the result is specified
             {
               if(last)
               {
                 std::string why;
-                chk(c, close(out, refs[m.mver], exact, rel, why), "precond.lifecycle-apply " + kname + (bs > 1 ? " blocked" : ""),
+                chk(c, close(out, refs[m.mver][m.om], exact, rel, why), "precond.lifecycle-apply " + kname + (bs > 1 ? " blocked" : ""),
                   [&]{ return where + " history: " + hist_str(hist) + ": apply does not reflect the current matrix values (version " + std::to_string(m.mver) + "): " + why; });
                 chk(c, unch && st == Status::success, "precond.lifecycle-status " + kname, [&]{ return where + " history: " + hist_str(hist); });
               }
@@ -566,7 +602,7 @@ namespace c08
         }
         c.count("transitions");
       }
-      verif::Hash h1, h2; h1.pod(m.phase).pod(m.mver).pod(m.nver).pod(m.app_sym).pod(m.app_num); h2.pod(m.app_num).pod(m.app_sym).pod(m.nver).pod(m.mver).pod(m.phase).str("x");
+      verif::Hash h1, h2; h1.pod(m.phase).pod(m.mver).pod(m.nver).pod(m.app_sym).pod(m.app_num).pod(m.om).pod(m.nom); h2.pod(m.nom).pod(m.om).pod(m.app_num).pod(m.app_sym).pod(m.nver).pod(m.mver).pod(m.phase).str("x");
       // implementation state: matrix values + numeric data of the preconditioner
       { const double* v = Sys<bs>::rawval(box.mat); size_t cnt = size_t(box.mat.used_elements()) * size_t(bs * bs); h1.bytes(v, cnt * sizeof(double)); h2.bytes(v, cnt * sizeof(double)); }
       if(m.phase == 2) { box.hash_numeric(h1); box.hash_numeric(h2); }
@@ -607,7 +643,7 @@ namespace c08
   {
     typedef Sys<bs> S;
     const int nmax = c.thorough ? nmax_thorough : nmax_quick;
-    const int lc_depth = c.thorough ? 14 : 12;
+    const int lc_depth = c.thorough ? 16 : 14;
     for(int n = 1; n <= nmax; ++n)
     {
       const unsigned npat = 1u << unsigned(n * (n - 1));
@@ -630,7 +666,7 @@ namespace c08
             if(!(pat == 0 || pat == full || pat == tri || pat == lower || pat == upper || pat % stride == 5 % stride)) continue;
           }
         }
-        for(int dvar = 0; dvar < 2; ++dvar)
+        for(int dvar = 0; dvar < ((c.thorough || n <= 3) ? 3 : 2); ++dvar)
         for(size_t ci = 0; ci < cfgs.size(); ++ci)
         for(size_t fi = 0; fi < fsets.size(); ++fi)
         {
@@ -645,7 +681,8 @@ namespace c08
           // non-trivial: the operator is not a multiple of the identity on this input (n>=2 with an off-diagonal entry, or a non-unit diagonal)
           if(pat != 0 || cfg.kind <= K_ILU) c.nontrivial(verif::Hash().pod(bs).pod(n).pod(pat).pod(dvar).pod(ci).pod(fi).get());
           c.outcome(std::string(KNAME[cfg.kind]) + (fi ? "+unit" : "+none"));
-          const bool lifecycle = (fi == 0) || (fi == 1 && dvar == 0);
+          // the life-cycle behaviour hardly depends on the pattern: quick explores it for all patterns of n <= 3 and every 8th of larger n
+          const bool lifecycle = ((fi == 0) || (fi == 1 && dvar == 0)) && (c.thorough || n <= 3 || pat % 8 == 5 || pat == npat - 1);
           if(fi == 0) run_case<bs, typename S::FNone>(c, orc, where, lifecycle, lc_depth);
           else run_case<bs, typename S::FUnit>(c, orc, where, lifecycle, lc_depth);
         }
@@ -658,7 +695,7 @@ namespace c08
     spec.property = "C08"; spec.harness = harness;
     spec.rule = std::string("case = (") + what + " size n, off-diagonal block pattern (all 2^(n(n-1))), diagonal variant, preconditioner kind+parameter, correction filter None/Unit(S)); "
       "per case: apply on every unit vector and one dense vector vs the long double textbook operator, NaN/1 pre-filled output, input unchanged, linearity, "
-      "ILU factors vs level-of-fill definition; then BFS over all legal life-cycle histories {init_symbolic, init_numeric, apply, in-place update of the diagonal values, in-place update of all values, done_numeric, done_symbolic} "
+      "ILU factors vs level-of-fill definition; then BFS over all legal life-cycle histories {init_symbolic, init_numeric, apply, in-place update of the diagonal values, in-place update of all values, done_numeric, done_symbolic, set_omega} "
       "replayed on fresh objects and deduplicated by (matrix values, preconditioner numeric arrays, phase, version at the last init_numeric, 'apply since last init_symbolic', 'apply since last init_numeric'). Non-trivial: matrix has an off-diagonal entry or the operator uses the diagonal";
     spec.assumptions = {
       "oracle: own long double block-dense algebra (c08_common.hpp); ILU(p) reference = level-of-fill (Saad Alg. 10.5) + block IKJ with L_ik = A_ik U_kk^-1",
